@@ -44,6 +44,18 @@ def gen_case(rng):
     syms = {}
     for _ in range(rng.randrange(1, 7)):
         k = rng.random()
+        if k > 0.9:
+            # a .set variable, defined or re-defined in whatever segment is current: a data operand sees the value the
+            # variable has at its own place in the source, also when the memories are interleaved
+            name = "v%d" % rng.randrange(2)
+            if name in syms and rng.random() < 0.5:
+                step = rng.randrange(1, 4)
+                lines.append(".set %s = %s + %d" % (name, rng.choice([name, name.upper()]), step))
+                syms[name] += step
+            else:
+                syms[name] = rng.randrange(0, 200)
+                lines.append(".set %s = %d" % (name, syms[name]))
+            continue
         if k < 0.18:
             seg = rng.choice("ce" if rng.random() < 0.97 else "d")
             lines.append({"c": ".cseg", "e": ".eseg", "d": ".dseg"}[seg])
@@ -181,7 +193,7 @@ def run(res):
             P.fail(res, "builder::build_str", t, "code=%s eeprom=%s" % (exp[1], exp[2]), obs[t][0][:160], "bytes")
     res.extra["distribution"].update(cases=len(cases), expected_failures=nerr)
     res.extra["exhaustive"] = False
-    res.rule = ("operand lists of 1..4 elements (literals of all radixes, negated literals, .equ symbols in both letter cases, ASCII / "
+    res.rule = ("operand lists of 1..4 elements (literals of all radixes, negated literals, .equ symbols and re-assigned .set variables in both letter cases, ASCII / "
                 "non-ASCII / empty strings) for .db/.dw/.dd/.dq and .byte, in code, EEPROM and (wrongly) data segments; every width x "
                 "every boundary value on its own; oracle: reference encoder in vlib/c06.py (little-endian two's complement, "
                 "[-2^(w-1), 2^w-1], one pad byte per odd .db line in flash only)")
